@@ -24,6 +24,62 @@ const TEXTS: &[&str] = &[
 ];
 const VAL_TEXTS: &[&str] = &["1.0 if x > y else 73", "x + 2 * y == 7 && true", "to_float(x) / 3 - fact(4)", "dot([1,2,3], [x, y, 2]) if x != 0 else 0.5"];
 
+// Two operator factories of the same size whose names are prefixes of each other in one of them:
+// "parsing is deterministic" also means that a parse does not depend on which factory was used by the
+// previous parse of the process or by another thread (no state shared between parses).
+use exmex::{BinOp, MakeOperators, Operator};
+#[derive(Clone, Debug)]
+pub struct FacA;
+impl MakeOperators<f64> for FacA {
+    fn make<'a>() -> Vec<Operator<'a, f64>> {
+        vec![
+            Operator::make_bin("**", BinOp { apply: |a: f64, b: f64| a.powf(b), prio: 5, is_commutative: false }),
+            Operator::make_bin("*", BinOp { apply: |a, b| a * b, prio: 3, is_commutative: true }),
+            Operator::make_bin("<=", BinOp { apply: |a, b| if a <= b { 1.0 } else { 0.0 }, prio: 1, is_commutative: false }),
+            Operator::make_bin("<", BinOp { apply: |a, b| if a < b { 1.0 } else { 0.0 }, prio: 1, is_commutative: false }),
+            Operator::make_bin("+", BinOp { apply: |a, b| a + b, prio: 2, is_commutative: true }),
+            Operator::make_bin_unary("-", BinOp { apply: |a, b| a - b, prio: 2, is_commutative: false }, |a| -a),
+        ]
+    }
+}
+#[derive(Clone, Debug)]
+pub struct FacB;
+impl MakeOperators<f64> for FacB {
+    fn make<'a>() -> Vec<Operator<'a, f64>> {
+        vec![
+            Operator::make_bin("*", BinOp { apply: |a, b| a * b, prio: 3, is_commutative: true }),
+            Operator::make_bin("+", BinOp { apply: |a, b| a + b, prio: 2, is_commutative: true }),
+            Operator::make_bin_unary("-", BinOp { apply: |a, b| a - b, prio: 2, is_commutative: false }, |a| -a),
+            Operator::make_bin("<", BinOp { apply: |a, b| if a < b { 1.0 } else { 0.0 }, prio: 1, is_commutative: false }),
+            Operator::make_bin("/", BinOp { apply: |a, b| a / b, prio: 3, is_commutative: false }),
+            Operator::make_bin("%", BinOp { apply: |a: f64, b: f64| a % b, prio: 3, is_commutative: false }),
+        ]
+    }
+}
+/// (text, value) under FacA / FacB, fixed by the documented semantics
+const FAC_A: &[(&str, f64)] = &[("2**3*2+(1<=2)", 17.0), ("3<=2**2", 1.0), ("-2**2*3", 12.0), ("1<2+2<=1", 1.0)];
+const FAC_B: &[(&str, f64)] = &[("2*3+4/2-(1<2)", 7.0), ("7%4*2", 6.0), ("-2*3<1", 1.0), ("8/2/2", 2.0)];
+
+fn custom(which: bool, k: usize) -> String {
+    // k also selects the form: both parsers build their own operator table
+    let deep = (k / 4) % 2 == 1;
+    if which {
+        let (t, want) = FAC_A[k % FAC_A.len()];
+        let r = if deep { DeepEx::<f64, FacA>::parse(t).and_then(|e| e.eval(&[])) } else { FlatEx::<f64, FacA>::parse(t).and_then(|e| e.eval(&[])) };
+        match r {
+            Ok(v) if v == want => "ok".into(),
+            other => format!("FacA {} gave {:?}, documented {}", t, other.ok(), want),
+        }
+    } else {
+        let (t, want) = FAC_B[k % FAC_B.len()];
+        let r = if deep { DeepEx::<f64, FacB>::parse(t).and_then(|e| e.eval(&[])) } else { FlatEx::<f64, FacB>::parse(t).and_then(|e| e.eval(&[])) };
+        match r {
+            Ok(v) if v == want => "ok".into(),
+            other => format!("FacB {} gave {:?}, documented {}", t, other.ok(), want),
+        }
+    }
+}
+
 fn work(round_seed: u64, shared_f: &[Arc<FlatEx<f64>>], shared_d: &[Arc<DeepEx<'static, f64>>]) -> Vec<String> {
     let mut out = vec![];
     let mut r = Rng::new(round_seed);
@@ -51,6 +107,10 @@ fn work(round_seed: u64, shared_f: &[Arc<FlatEx<f64>>], shared_d: &[Arc<DeepEx<'
             }
             Err(_) => out.push("E".into()),
         }
+        // two parses with equally sized custom factories, in random order
+        let (w1, w2, k1, k2) = (r.chance(1, 2), r.chance(1, 2), r.below(8), r.below(8));
+        out.push(custom(w1, k1));
+        out.push(custom(w2, k2));
         let k = r.below(shared_f.len());
         let v: Vec<f64> = (0..shared_f[k].var_names().len()).map(|i| 1.0 + i as f64 * 0.5 + (r.below(8) as f64)).collect();
         out.push(format!("{:?}", shared_f[k].eval(&v).map(|x| x.to_bits()).ok()));
@@ -101,6 +161,17 @@ pub fn child(nthreads: usize, seed: u64) -> i32 {
         let reference = work(seed.wrapping_add(i as u64 % 3), &shared_f, &shared_d);
         if *res != reference {
             return 6;
+        }
+        // the custom-factory parses have documented values, whatever was parsed before
+        if res.iter().any(|x| x.starts_with("Fac")) {
+            return 8;
+        }
+    }
+    // history independence, sequentially: alternate the two equally sized factories
+    for k in 0..64 {
+        let (a, b) = (k % 8, (k / 8) % 8);
+        if custom(true, a) != "ok" || custom(false, b) != "ok" || custom(false, a) != "ok" || custom(true, b) != "ok" {
+            return 9;
         }
     }
     // evaluation did not modify the shared expressions
